@@ -38,3 +38,61 @@ func errCount(err error) int {
 	}
 	return len(status.FromError(err))
 }
+
+// sentenceSpec computes, with the brute-force recogniser (search oracle), what a correct parser for
+// input `in` must do on `w`: "A" accept (eoi input), "P<n>/<n>…" accept after exactly one of these
+// prefix lengths (no-eoi input), "E<k>" syntax error at token index k.
+func sentenceSpec(g *Gram, in GInput, w []int) string {
+	if in.Eoi {
+		if g.Derives(in.Sym, w) {
+			return "A"
+		}
+	} else {
+		var ns []string
+		for n := 0; n <= len(w); n++ {
+			if g.Derives(in.Sym, w[:n]) {
+				ns = append(ns, fmt.Sprint(n))
+			}
+		}
+		if len(ns) > 0 {
+			return "P" + strings.Join(ns, "/")
+		}
+	}
+	for k := 0; k < len(w); k++ {
+		if !g.IsPrefix(in.Sym, w[:k+1]) {
+			return fmt.Sprintf("E%d", k)
+		}
+	}
+	return fmt.Sprintf("E%d", len(w))
+}
+
+// sampleWords returns short token strings: all strings up to maxAll, random sentences and mutations.
+func sampleWords(c *Ctx, g *Gram, start int, maxAll, nRand int) [][]int {
+	var ws [][]int
+	cnt := 0
+	g.AllStrings(maxAll, func(w []int) bool {
+		ws = append(ws, w)
+		cnt++
+		return cnt < 400
+	})
+	for i := 0; i < nRand; i++ {
+		if s, ok := g.RandSentence(c.Rng, start, 4+c.Rng.Intn(8)); ok && len(s) <= 14 {
+			ws = append(ws, s)
+			ws = append(ws, g.Mutate(c.Rng, s))
+		}
+	}
+	return ws
+}
+
+// errPos=false: only accept/reject is specified ("E*" = any syntax error).
+func wordSpecs(g *Gram, in GInput, ws [][]int, errPos bool) string {
+	parts := make([]string, 0, len(ws))
+	for _, w := range ws {
+		sp := sentenceSpec(g, in, w)
+		if !errPos && strings.HasPrefix(sp, "E") {
+			sp = "E*"
+		}
+		parts = append(parts, ints(w)+":"+sp)
+	}
+	return strings.Join(parts, " ")
+}
